@@ -54,3 +54,36 @@ package ssh
 //@       exists(j, 0 <= j && j < len(keys), arg(Agent.Remove, c, 1) == asKey(keys[j]) && apply(a.opt.KeyRefreshFilter, keys[j])))
 //@     invariant forall(j, 0 <= j && j < rangeindex + 1 && j < len(keys),
 //@       apply(a.opt.KeyRefreshFilter, keys[j]) ==> exists(c, r0 <= c && c < calls(Agent.Remove), arg(Agent.Remove, c, 1) == asKey(keys[j]) && ret(Agent.Remove, c, 0) == nil))
+
+//@ # AddCertsToAgent: refresh once, then every certificate the CA returned is inserted together with the private key
+//@ # and the lifetime of the private key; nothing is inserted unless it is such a pair.
+//@ func (*AgentKey).AddCertsToAgent(a, certs, comments)
+//@   flag logged purecallbacks
+//@   requires a != nil && a.agent != nil && a.opt.KeyRefreshFilter != nil
+//@   requires forall(i, 0 <= i && i < len(certs), certs[i] != nil && key.wfKey(certs[i]))
+//@   modifies a.addedKey.Comment
+//@   let f0 = old(calls(refreshKeys))
+//@   let a0 = old(calls(Agent.Add))
+//@   let ra0 = old(calls(Agent.RemoveAll))
+//@   ensures [refresh-once-before-any-insert] calls(refreshKeys) == f0 + 1 && arg(refreshKeys, f0, 0) == a
+//@   ensures ret(refreshKeys, f0, 0) != nil ==> (result == ret(refreshKeys, f0, 0) && calls(Agent.Add) == a0)
+//@   ensures [every-insert-is-the-private-key-with-one-of-the-certificates] forall(c, a0 <= c && c < calls(Agent.Add), arg(Agent.Add, c, 0) == a.agent &&
+//@     arg(Agent.Add, c, 1).PrivateKey == old(a.addedKey.PrivateKey) && arg(Agent.Add, c, 1).LifetimeSecs == old(a.addedKey.LifetimeSecs) &&
+//@     arg(Agent.Add, c, 1).ConfirmBeforeUse == old(a.addedKey.ConfirmBeforeUse) &&
+//@     arg(Agent.Add, c, 1).Comment == a.opt.CertLabel && arg(Agent.Add, c, 1).Certificate != nil &&
+//@     exists(i, 0 <= i && i < len(certs), key.certid(arg(Agent.Add, c, 1).Certificate) == blobid(certs[i])))
+//@   ensures [every-certificate-inserted-on-success] result == nil ==> forall(i, 0 <= i && i < len(certs), certBlob(blobid(certs[i])) ==>
+//@     exists(c, a0 <= c && c < calls(Agent.Add), key.certid(arg(Agent.Add, c, 1).Certificate) == blobid(certs[i]) && ret(Agent.Add, c, 0) == nil))
+//@   ensures [no-wholesale-removal] calls(Agent.RemoveAll) == ra0
+//@   ensures [key-material-untouched] a.addedKey.PrivateKey == old(a.addedKey.PrivateKey) && a.addedKey.LifetimeSecs == old(a.addedKey.LifetimeSecs)
+//@   loop 1:
+//@     invariant calls(refreshKeys) == f0 + 1 && calls(Agent.RemoveAll) == ra0 && calls(Agent.Add) >= a0
+//@     invariant addedKey.PrivateKey == old(a.addedKey.PrivateKey) && addedKey.LifetimeSecs == old(a.addedKey.LifetimeSecs) && addedKey.ConfirmBeforeUse == old(a.addedKey.ConfirmBeforeUse)
+//@     invariant forall(i, 0 <= i && i < len(certs), certs[i] != nil && key.wfKey(certs[i]))
+//@     invariant forall(c, a0 <= c && c < calls(Agent.Add), arg(Agent.Add, c, 0) == a.agent && ret(Agent.Add, c, 0) == nil &&
+//@       arg(Agent.Add, c, 1).PrivateKey == old(a.addedKey.PrivateKey) && arg(Agent.Add, c, 1).LifetimeSecs == old(a.addedKey.LifetimeSecs) &&
+//@       arg(Agent.Add, c, 1).ConfirmBeforeUse == old(a.addedKey.ConfirmBeforeUse) &&
+//@       arg(Agent.Add, c, 1).Comment == a.opt.CertLabel && arg(Agent.Add, c, 1).Certificate != nil &&
+//@       exists(i, 0 <= i && i < len(certs), key.certid(arg(Agent.Add, c, 1).Certificate) == blobid(certs[i])))
+//@     invariant forall(i, 0 <= i && i < rangeindex + 1 && i < len(certs), certBlob(blobid(certs[i])) ==>
+//@       exists(c, a0 <= c && c < calls(Agent.Add), key.certid(arg(Agent.Add, c, 1).Certificate) == blobid(certs[i]) && ret(Agent.Add, c, 0) == nil))
